@@ -28,6 +28,14 @@ func init() {
 		ruleT1(c, "C04.S11")
 		ruleA1(c, "C04.S12")
 		ruleK5(c, "C04.S13")
+		// names are unique only if the name cache that answers every lookup holds all of them
+		ruleW2(c, "C04.S14")
+		// an entry that could not be written (".", "..", the new name of a RENAME) must not be taken for written
+		ruleOkResults(c, "C04.S15")
+		ruleNullSource(c, "C04.S16")
+		// names stay unique: a create goes ahead only when the lookup under the lock found nothing
+		ruleT12(c, "C04.S17")
+		ruleSelfRename(c, "C04.S18")
 	}
 }
 
@@ -876,4 +884,148 @@ func unlinkCalls(c *Ctx, fn *ssa.Function) []ssa.Instruction {
 		}
 	}
 	return out
+}
+
+// ruleSelfRename: RENAME x -> x names one object twice.  Past the lookups the
+// handler treats "the target exists" as "another object is replaced": it
+// removes the target name and unlinks its inode - the very file being renamed.
+// So RENAME needs a way out, before any directory update, on the side where
+// the two looked-up numbers are equal; this rule walks from that side of the
+// comparison along the branches whose outcome is a constant on this path (the
+// flags the handler sets: done = true) and demands a return with no
+// RemName / AddName / unlink on the way.
+func ruleSelfRename(c *Ctx, id string) {
+	V, P, R := c.V, c.P, c.R
+	R.Rule(id, "RENAME of a name onto itself changes nothing: the side of the comparison of the two looked-up inode numbers on which they are equal reaches a return without a directory update or an unlink", 1)
+	ren := c.fn(id, "nfs.(*Nfs).NFSPROC3_RENAME")
+	lookup := c.fn(id, "dir.LookupName")
+	addName := c.fn(id, "dir.AddName")
+	remName := c.fn(id, "dir.RemName")
+	if ren == nil || lookup == nil || addName == nil || remName == nil {
+		return
+	}
+	fromLookup := func(v ssa.Value) bool {
+		seen := map[ssa.Value]bool{}
+		var w func(v ssa.Value, d int) bool
+		w = func(v ssa.Value, d int) bool {
+			v = stripConv(v)
+			if v == nil || seen[v] || d > 8 {
+				return false
+			}
+			seen[v] = true
+			switch x := v.(type) {
+			case *ssa.Extract:
+				if cl, ok := x.Tuple.(*ssa.Call); ok && x.Index == 0 && staticCallee(cl) == lookup {
+					return true
+				}
+			case *ssa.Phi:
+				for _, e := range x.Edges {
+					if w(e, d+1) {
+						return true
+					}
+				}
+			case *ssa.UnOp:
+				if x.Op == token.MUL {
+					for _, st := range cellStores(x.X) {
+						if w(st.Val, d+1) {
+							return true
+						}
+					}
+				}
+			}
+			return false
+		}
+		return w(v, 0)
+	}
+	isUpdate := func(in ssa.Instruction) bool {
+		g := staticCallee(in)
+		return g != nil && (g == addName || g == remName || g == V.DecLink || (V.DecLink != nil && g.Name() == "doDecLink"))
+	}
+	n := 0
+	for _, br := range branches(ren) {
+		if (br.Cond.Op != token.EQL && br.Cond.Op != token.NEQ) || br.Cond.X == nil || br.Cond.Y == nil {
+			continue
+		}
+		if !isInumType(br.Cond.X.Type()) || !fromLookup(br.Cond.X) || !fromLookup(br.Cond.Y) {
+			continue
+		}
+		n++
+		side := br.True
+		if br.Cond.Op == token.NEQ {
+			side = br.False
+		}
+		// walk: constants decide the branches
+		prev, cur := br.Block, side
+		ok, why := false, "no return reached"
+		for steps := 0; steps < 40 && cur != nil; steps++ {
+			bad := false
+			for _, in := range cur.Instrs {
+				if isUpdate(in) {
+					bad = true
+				}
+			}
+			if bad {
+				why = "a directory update or an unlink lies on the way"
+				break
+			}
+			last := cur.Instrs[len(cur.Instrs)-1]
+			switch x := last.(type) {
+			case *ssa.Return:
+				ok = true
+			case *ssa.Jump:
+				prev, cur = cur, cur.Succs[0]
+				continue
+			case *ssa.If:
+				cond := x.Cond
+				neg := false
+				for {
+					if u, isU := cond.(*ssa.UnOp); isU && u.Op == token.NOT {
+						cond, neg = u.X, !neg
+						continue
+					}
+					break
+				}
+				var val ssa.Value = cond
+				if ph, isP := cond.(*ssa.Phi); isP && ph.Block() == cur {
+					for i, p := range cur.Preds {
+						if p == prev {
+							val = ph.Edges[i]
+						}
+					}
+				}
+				bv, isb := constBool(val)
+				if !isb {
+					why = "a branch on the way does not depend on a constant of this path (" + P.Pos(x.Pos()) + ")"
+					cur = nil
+					continue
+				}
+				if neg {
+					bv = !bv
+				}
+				if bv {
+					prev, cur = cur, cur.Succs[0]
+				} else {
+					prev, cur = cur, cur.Succs[1]
+				}
+				continue
+			default:
+				why = "unexpected end of block"
+			}
+			break
+		}
+		R.Analysed[FuncName(ren)] = true
+		R.Check(ok, id, fmt.Sprintf("NFSPROC3_RENAME|same object: no update#%d", n), P.Pos(br.Block.Instrs[len(br.Block.Instrs)-1].Pos()), "where source and target name the same inode the handler returns without touching the directories", "constant path to a return", why+": RENAME x -> x goes on as if another object were replaced - it removes the target name and unlinks its inode, the very file being renamed: an acknowledged RENAME deletes the file")
+	}
+	if n == 0 {
+		R.Fail(id, "NFSPROC3_RENAME|same object: no update", P.Pos(ren.Pos()), "RENAME compares the inode numbers its two lookups found", "no such comparison: RENAME x -> x is handled like the replacement of another object - it removes the target name and unlinks its inode, the very file being renamed")
+	}
+}
+
+func isInumType(t types.Type) bool {
+	n, ok := types.Unalias(t).(*types.Named)
+	if ok && n.Obj().Name() == "Inum" {
+		return true
+	}
+	b, ok := t.Underlying().(*types.Basic)
+	return ok && b.Kind() == types.Uint64
 }
